@@ -1,5 +1,8 @@
 import XL.Model.Proto
 import XL.Model.Ref
+import XL.Model.Cal
+import XL.Model.Eng
+import XL.Generated.Tables
 /-!
 # Request dispatcher of the executable model
 -/
@@ -64,11 +67,58 @@ def answerRef (cmd : String) (args : List String) : Option String :=
   | "relabs", [h, o] => do let a ← parseNat? h; let b ← parseInt? o; pure (toString (relAbs a b))
   | _, _ => none
 
+def showDErr : DErr → String
+  | .num => "#NUM!"
+  | .value => "#VALUE!"
+
+def showEErr : EErr → String
+  | .num => "#NUM!"
+  | .value => "#VALUE!"
+
+def answerCal (cmd : String) (args : List String) : Option String :=
+  match cmd, args with
+  | "int2date", [n] => do
+      let k ← parseInt? n
+      pure (match int2date 2958465 k with
+        | .ok (y, m, d) => s!"{y},{m},{d}"
+        | .error e => showDErr e)
+  | "xdate", [y, m, d] => do
+      let a ← parseInt? y; let b ← parseInt? m; let c ← parseInt? d
+      pure (match xdate pyFuel a b c with
+        | .ok v => toString v
+        | .error e => showDErr e)
+  | "weekday", [n, m] => do
+      let a ← parseInt? n; let b ← parseInt? m
+      pure (match xweekday 2958465 a b with
+        | .ok v => toString v
+        | .error e => showDErr e)
+  | "dec2x", [b, n] => do
+      let base ← parseNat? b; let k ← parseInt? n
+      let mask ← (Generated.xmask.find? (·.1 == base)).map (·.2)
+      pure (match dec2x mask base k with
+        | .ok s => encodeStr s
+        | .error e => showEErr e)
+  | "x2dec", [b, s] => do
+      let base ← parseNat? b
+      let mask ← (Generated.xmask.find? (·.1 == base)).map (·.2)
+      pure (match x2dec mask base (decodeStr s) with
+        | .ok v => toString v
+        | .error e => showEErr e)
+  | "roman", [n, f] => do
+      let k ← parseNat? n; let form ← parseNat? f
+      let tbl ← Generated.romanTables[form]?
+      pure (encodeStr (romanGo (tbl.map fun (v, s) => (v, s.toList)) k))
+  | "arabic", [s] =>
+      pure (match arabic (decodeStr s) with
+        | some v => toString v
+        | none => "#VALUE!")
+  | _, _ => none
+
 def answer (line : String) : String :=
   match (line.trimAscii.toString.splitOn " ").filter (· ≠ "") with
   | [] => "bad-request"
   | cmd :: args =>
-    match (answerRect cmd args).orElse (fun _ => answerRef cmd args) with
+    match ((answerRect cmd args).orElse (fun _ => answerRef cmd args)).orElse (fun _ => answerCal cmd args) with
     | some r => r
     | none => "bad-request"
 
